@@ -9,7 +9,7 @@ HOOK_COMMITS = ["c5cf169", "2895036"]
 
 # property -> (technique, level text, level note, design ref)
 T = {
- "C01": ("differential runtime monitor: library vs independent spec-level reference model over generated inputs, several build variants + ASan/UBSan/MSan; half of the calls on a relocated PROT_READ copy of the key schedule",
+ "C01": ("differential runtime monitor: library vs independent spec-level reference model over generated inputs, several build variants + ASan/UBSan/MSan; half of the calls on a relocated PROT_READ copy of the key schedule; random cases preceded by a foreign object keyed and used with a related key (hidden process-wide memo detection)",
          "Exploration: 10^5..10^7 generated (variant, key, block, direction) cases per run incl. every S-box input at every cell, walking-one tweakeys and random pairs, on the shipped build, the 32-bit and byte-order-neutral source paths and sanitizer builds; decides only the inputs executed.",
          "Trusted: the reference model (self-tested on the six published vectors each run); alternative word-size paths run on the 64-bit LE host through the switch hook.", "3/C01"),
  "C02": ("differential runtime monitor: library vs independent MANTIS model through all four entry points",
@@ -36,7 +36,7 @@ T = {
  "C09": ("guard-page (PROT_NONE) exact-extent buffers + canaries on the shipped and clang builds, read-only (PROT_READ) input pages, ASan manual poisoning, memcheck NOACCESS (sample in quick); result equality across alignments, overlaps, adjacent buffers and buffers an exact multiple of 4 GiB apart",
          "Exploration: every pointer argument of every public function at misalignments 0..63, back- and front-guarded, all lengths up to 2 batches+17, overlap offsets, in-place bulk calls, every back end.",
          "Page-granular guards catch overruns beyond the alignment slack; byte-exact detection relies on ASan/memcheck variants.", "3/C09"),
- "C10": ("exhaustive key-length sweep monitor: accept/reject oracle, zero-padding equivalence vs padded key and reference model, schedule-untouched and stream-undisturbed checks (twin objects), stack painting; the same sweep through the three tools",
+ "C10": ("exhaustive key-length sweep monitor: accept/reject oracle, zero-padding equivalence vs padded key and reference model, schedule-untouched and stream-undisturbed checks (twin objects), stack painting; the object's previous key is in half of the cases the zero extension of the key under test; the same sweep through the three tools",
          "Exploration, exhaustive over key lengths 0..3 blocks+16 plus huge lengths for every key-setting entry point; sampled over key bytes.",
          "Trusted: reference models; 'untouched' is judged on the documented struct fields / twin outputs.", "3/C10"),
  "C11": ("definedness monitor at the API boundary (MSan shadow tests, memcheck CHECK_MEM_IS_DEFINED) + cross-process differential with painted stack/perturbed heap/optimisation levels",
@@ -60,7 +60,7 @@ T = {
  "C17": ("monitor at free() and munmap(): every block the library releases is scanned for non-zero bytes before release, on -O3 gcc and clang builds, also in a process where mlock fails (seccomp), with 220 objects alive, on LTO and clang builds",
          "Exploration over histories ending in cleanup for every object kind and back end with all fields non-zero beforehand (non-vacuity measured).",
          "Block sizes known from the matching allocation event.", "3/C17"),
- "C18": ("ThreadSanitizer (gcc and clang) and helgrind over 16-thread workloads (incl. first-ever calls made concurrently, key-setup storms, persistent workers across re-keying phases, 64 KiB+ requests; a -fno-builtin TSan build) + process-state snapshots (signal dispositions, mask, FP control) + sequential-equivalence oracle + mprotect(PROT_READ) of shared parallel-ECB state during read-only calls, positive control race",
+ "C18": ("ThreadSanitizer (gcc and clang) and helgrind over 16-thread workloads (incl. first-ever calls made concurrently, key-setup storms, persistent workers across re-keying phases, 64 KiB+ requests; a -fno-builtin TSan build; a lock-free release/acquire pipeline handing 64 KiB..1 MiB outputs to a consumer thread that must see the sequential result) + process-state snapshots (signal dispositions, mask, FP control) + sequential-equivalence oracle + mprotect(PROT_READ) of shared parallel-ECB state during read-only calls, positive control race",
          "Exploration over schedules: distinct objects, shared read-only schedules/parallel objects, concurrent init/cleanup storms; overlap measured.",
          "Interleavings are sampled; happens-before detection needs an overlapping schedule, which the workloads provoke.", "3/C18"),
  "C19": ("differential monitor: Arduino C++ classes compiled for the host vs the C library and the models over generated op sequences",
